@@ -153,7 +153,10 @@ def stub_modules():
         nan=NaN(),
         inf=Inf(1),
     )
+    from .pandas_proxy import proxy as pandas_proxy
+
     return {
+        "pandas": pandas_proxy,
         "jax": jax,
         "jax.numpy": jnp,
         "jax.ops": ops,
